@@ -665,24 +665,21 @@ impl OptimizedDictionaryCompressor {
                                 continue;
                             }
 
-                            // Verify the pattern matches (hash collision check)
-                            if suffix_pos + self.min_match_length <= self.text.len() {
-                                let training_pattern =
-                                    &self.text[suffix_pos..suffix_pos + self.min_match_length];
-                                if training_pattern != pattern {
-                                    continue; // Hash collision, skip
-                                }
-                            } else {
+                            // The decoder resolves a back-reference against its own output,
+                            // so the candidate (found through the index of the training text)
+                            // counts only if the payload itself holds the pattern at that
+                            // position (this also rejects hash collisions). suffix_pos < pos,
+                            // so the slice is in bounds.
+                            if &data[suffix_pos..suffix_pos + self.min_match_length] != pattern {
                                 continue;
                             }
 
-                            // Extend the match as far as possible
+                            // Extend the match as far as possible within the payload
                             let max_possible = (data.len() - pos).min(self.max_match_length);
                             let mut match_length = self.min_match_length;
 
                             while match_length < max_possible
-                                && suffix_pos + match_length < self.text.len()
-                                && self.text[suffix_pos + match_length] == data[pos + match_length]
+                                && data[suffix_pos + match_length] == data[pos + match_length]
                             {
                                 match_length += 1;
                             }
@@ -717,14 +714,17 @@ impl OptimizedDictionaryCompressor {
                                     continue;
                                 }
 
-                                // Extend the match as far as possible
+                                // As above: the payload itself must hold the pattern there
+                                if &data[suffix_pos..suffix_pos + self.min_match_length] != pattern {
+                                    continue;
+                                }
+
+                                // Extend the match as far as possible within the payload
                                 let max_possible = (data.len() - pos).min(self.max_match_length);
                                 let mut match_length = self.min_match_length;
 
                                 while match_length < max_possible
-                                    && suffix_pos + match_length < self.text.len()
-                                    && self.text[suffix_pos + match_length]
-                                        == data[pos + match_length]
+                                    && data[suffix_pos + match_length] == data[pos + match_length]
                                 {
                                     match_length += 1;
                                 }
